@@ -242,6 +242,9 @@ bool QXmppRosterManager::handleStanza(const QDomElement &element)
         }
         break;
     }
+    case QXmppIq::Get:
+        // we are not a roster server: let the client reply with an error
+        return false;
     default:
         break;
     }
